@@ -621,6 +621,10 @@ func vfRandRoute(r *vfh.Rand) netip.Prefix {
 	return netip.PrefixFrom(vfh.Addr6(hi, lo), bits).Masked()
 }
 
+// c15Reenter: the plugin whose expansion is re-entered from inside its own route dump (see the Routes
+// callback in c15Run)
+var c15Reenter *Route
+
 func c15Run(t *testing.T, out *vfh.Out, k int, rs []netip.Prefix) {
 	routes := make([]system.Route, len(rs))
 	pref := []ndp.Preference{ndp.Medium, ndp.High, ndp.Low}[k%3]
@@ -647,6 +651,13 @@ func c15Run(t *testing.T, out *vfh.Out, k int, rs []netip.Prefix) {
 			Routes: func() ([]system.Route, error) {
 				if wildSourceFails {
 					return nil, errors.New("verif: the route dump failed")
+				}
+				// another caller (the Prometheus collector, the debug API) builds an RA from the SAME
+				// plugin value while this one is inside its route dump: a complete second expansion
+				// runs here, between this expansion's start and its use of the dump
+				if other := c15Reenter; other != nil {
+					c15Reenter = nil
+					_ = other.Apply(&ndp.RouterAdvertisement{})
 				}
 				return c15Cur, nil
 			}}
@@ -680,6 +691,10 @@ func c15Run(t *testing.T, out *vfh.Out, k int, rs []netip.Prefix) {
 	}
 	pre := vfWildPre(k, rs)
 	ra := &ndp.RouterAdvertisement{Options: append([]ndp.Option(nil), pre...)}
+	if k%5 == 2 && !dep && vfPrepareIfi == nil {
+		c15Reenter = rt
+		defer func() { c15Reenter = nil }()
+	}
 	out.Try(c.String(), func() string {
 		impl := new(vfh.Toks)
 		if err := rt.Apply(ra); err != nil {
